@@ -1,9 +1,10 @@
 import IastModel.Lemmas.ErBlk2
 namespace IastModel
 open Node
+variable {cfg : Config}
 
-theorem mapM'_blk (g : Node → M Node) : ∀ (ks : List Node) (s : St), (∀ k ∈ ks, ∀ s, blkOk (g k s).1 = true) →
-    blkOkL (mapM' g ks s).1 = true := by
+theorem mapM'_blk (g : Node → M Node) : ∀ (ks : List Node) (s : St), (∀ k ∈ ks, ∀ s, blkOk cfg (g k s).1 = true) →
+    blkOkL cfg (mapM' g ks s).1 = true := by
   intro ks
   induction ks with
   | nil => intro s _; rfl
@@ -12,24 +13,24 @@ theorem mapM'_blk (g : Node → M Node) : ∀ (ks : List Node) (s : St), (∀ k 
     simp only [mapM', run_bind, run_pure, blkOkL_cons, Bool.and_eq_true]
     exact ⟨h k (by simp) s, ih _ (fun x hx => h x (by simp [hx]))⟩
 
-theorem noOpt_returnStmt {b : Node} (h : noOpt b = true) : noOpt (returnStmt b) = true := by
+theorem noOpt_returnStmt {b : Node} (h : noOpt cfg b = true) : noOpt cfg (returnStmt b) = true := by
   rw [noOpt_eq]
   simp [returnStmt, noOptK, kids, h]
 
-theorem Qb_arrowBody {b : Node} (hs : srcOk b = true) (hn : noOpt b = true) : blkOk (.block [returnStmt b] Span.dummy) = true := by
+theorem Qb_arrowBody {b : Node} (hs : srcOk b = true) (hn : noOpt cfg b = true) : blkOk cfg (.block [returnStmt b] Span.dummy) = true := by
   have h1 : srcOk (.block [returnStmt b] Span.dummy) = true := by
     have hr := srcOk_returnStmt hs
     rw [srcOk_eq]
     simp only [srcNode, srcOkL, kids, dummy_isDummy, if_true, List.all_cons, List.all_nil, Bool.and_true, hr]
     simp [returnStmt]
-  have h2 : noOpt (.block [returnStmt b] Span.dummy) = true := by
+  have h2 : noOpt cfg (.block [returnStmt b] Span.dummy) = true := by
     rw [noOpt_eq]; simp [noOptK, kids, noOpt_returnStmt hn]
   exact blkOk_src _ h1 h2
 
 /-- every block statement in what the operation visitor returns is a well-formed source block without
     optional chaining -/
-theorem visit_blk (cfg : Config) : ∀ (f : Nat) (root : Bool) (n : Node) (s : St), srcOk n = true → noOpt n = true →
-    blkOk (visit cfg f root n s).1 = true := by
+theorem visit_blk (cfg : Config) : ∀ (f : Nat) (root : Bool) (n : Node) (s : St), srcOk n = true → noOpt cfg n = true →
+    blkOk cfg (visit cfg f root n s).1 = true := by
   intro f
   induction f with
   | zero => intro root n s hs hn; simp only [visit, run_bind, run_pure]; exact blkOk_src n hs hn
@@ -37,19 +38,28 @@ theorem visit_blk (cfg : Config) : ∀ (f : Nat) (root : Bool) (n : Node) (s : S
     intro root n s hs hn
     have hsk := srcOk_kids hs
     have hnk := noOpt_kids hn
-    have hks : ∀ r s, blkOkL (mapM' (visit cfg f r) n.kids s).1 = true :=
+    have hks : ∀ r s, blkOkL cfg (mapM' (visit cfg f r) n.kids s).1 = true :=
       fun r s => mapM'_blk _ _ s (fun k hk s' => ih r k s' (hsk k hk) (hnk k hk))
-    have gen : ∀ r, isBlockNode n = false → blkOk (mapKidsM mapM' (visit cfg f r) n s).1 = true := by
+    have gen : ∀ r, isBlockNode n = false → blkOk cfg (mapKidsM mapM' (visit cfg f r) n s).1 = true := by
       intro r hb
       rw [mapKidsM_run]
       exact blkOk_withKids n _ hb (mapM'_length _ _ _) (hks r s)
     cases n with
     | ident nm sp => simp [visit, run_bind, run_pure]
     | block ss sp => simp only [visit, run_pure]; exact blkOk_src _ hs hn
-    | optChain o b sp => rw [noOpt_eq] at hn; simp [noOptK] at hn
+    | optChain o b sp =>
+      simp only [visit, run_bind]
+      obtain ⟨hc1, _⟩ := toDdCond_id cfg f (.optChain o b sp) s hn
+      generalize toDdCond cfg f (.optChain o b sp) s = C at hc1 ⊢
+      obtain ⟨⟨e', res⟩, s1⟩ := C
+      simp only [Prod.mk.injEq] at hc1
+      obtain ⟨rfl, rfl⟩ := hc1
+      simp only [Option.getD_none]
+      rw [finish_fst, mapKidsM_run]
+      exact blkOk_withKids _ _ rfl (mapM'_length _ _ _) (hks false s1)
     | arrow ps b at' sp =>
       simp only [visit, run_pure, toDdArrow]
-      have hps : blkOkL ps = true := blkOkL_of (fun k hk => blkOk_src k (hsk k (by simp [kids, hk])) (hnk k (by simp [kids, hk])))
+      have hps : blkOkL cfg ps = true := blkOkL_of (fun k hk => blkOk_src k (hsk k (by simp [kids, hk])) (hnk k (by simp [kids, hk])))
       split
       · exact blkOk_src _ hs hn
       · simp only [Option.getD_some, blkOk_arrow, Bool.and_eq_true]
@@ -123,8 +133,8 @@ theorem visit_blk (cfg : Config) : ∀ (f : Nat) (root : Bool) (n : Node) (s : S
           generalize mapM' (visit cfg f false) (es ++ qs) s = K at hk hlen ⊢
           obtain ⟨ks', s1⟩ := K
           simp only [withKids]
-          have hk1 : blkOkL (ks'.take es.length) = true := blkOkL_of (fun k hk' => blkOkL_mem hk k (List.mem_of_mem_take hk'))
-          have hk2 : blkOkL (ks'.drop es.length) = true := blkOkL_of (fun k hk' => blkOkL_mem hk k (List.mem_of_mem_drop hk'))
+          have hk1 : blkOkL cfg (ks'.take es.length) = true := blkOkL_of (fun k hk' => blkOkL_mem hk k (List.mem_of_mem_take hk'))
+          have hk2 : blkOkL cfg (ks'.drop es.length) = true := blkOkL_of (fun k hk' => blkOkL_mem hk k (List.mem_of_mem_drop hk'))
           have h := toDdTpl_blk cfg (ks'.take es.length) (ks'.drop es.length) sp s1 hk1 hk2
           generalize toDdTpl cfg (.tpl (ks'.take es.length) (ks'.drop es.length) sp) s1 = X at h ⊢
           obtain ⟨res, s2⟩ := X
